@@ -58,6 +58,20 @@ pub fn run(n: usize, rng: &mut Rng, rep: &mut Report) {
             }
         }
     }
+    // DEEP trees: the post passes (splice, join) must reach every depth the parser can produce - block nesting and inline
+    // nesting add up (about 100 + 100 + emphasis allowance under the default limit); leftovers at the bottom: an unmatched
+    // delimiter run, an empty label, adjacent texts
+    for (q, l, e) in [(99usize, 0usize, 29usize), (95, 0, 40), (0, 45, 45), (60, 19, 60), (99, 0, 99), (30, 30, 90), (0, 0, 99)] {
+        for leaf in ["x * y", "x _ y __", "[](u) *", "a\\\nb *", "`c` ~ d"] {
+            let mut inner = String::new();
+            for i in 0..e { inner.push_str(if i % 2 == 0 { "*a " } else { "_a " }); }
+            inner.push_str(leaf);
+            for i in (0..e).rev() { inner.push_str(if i % 2 == 0 { " a*" } else { " a_" }); }
+            let d = format!("{}{}{}", "> ".repeat(q), "- ".repeat(l), inner);
+            cases.push((cfg::Cfg::stock(), d.clone()));
+            cases.push((cfg::Cfg::full(), d));
+        }
+    }
     for _ in 0..n {
         let c = cfg::sample(rng, true, true);
         let d = if rng.chance(1, 4) { crate::oracle::c05::targeted(rng) } else { doc::any_doc(rng) };
